@@ -421,10 +421,20 @@ func (g *GenCtx) genSum(d *Desc, v reflect.Value, tname string) {
 	g.Gen(best.T, v.Field(best.Index), "p")
 }
 
+// UnaryBoundaries: both sides of WriteUnary's fast path (n < 63), of the cell capacity (1023 bits) and of int(n) >= 0
+var UnaryBoundaries = []uint64{0, 1, 62, 63, 64, 1022, 1023, 1024, 1 << 31, 1<<63 - 1, 1 << 63, 1<<64 - 1}
+
 func (g *GenCtx) genPrim(d *Desc, v reflect.Value) {
 	switch d.Name {
 	case "unary":
-		v.SetUint(uint64(g.Rng.Intn(40)))
+		// 0..27 and the boundaries of WriteUnary's two code paths, the cell capacity and the uint range (round robin;
+		// one draw is still consumed so that the other streams do not move)
+		_ = g.Rng.Intn(40)
+		if k := g.class("unary", 40); k < 28 {
+			v.SetUint(uint64(k))
+		} else {
+			v.SetUint(UnaryBoundaries[k-28])
+		}
 	case "any":
 		c := g.RandCell(120, 1, 1)
 		v.Set(reflect.ValueOf(*c).Convert(v.Type()))
